@@ -29,6 +29,37 @@ META = {
     'families': ['ESCAPE', 'GLOBALS', 'PURITY', 'FORWARD', 'DEADPARAM', 'SIB-DEFAULTS'],
 }
 
+def placeholder_kinds(ctx, rule='TBL'):
+    """The derived placeholders are rebuilt from parts of their own kind: an
+    `_UNDEF_*` constant from `_UNDEF_*` parts, an `_ERR_*` one from `_ERR_*`
+    parts.  A mixed one ('___z___zXX' as the "undefined" TRS) makes every
+    default-constructed TRS / Tract report an error section after the first
+    _recompile()."""
+    n = 0
+    for fi in ctx.repo.funcs.values():
+        if not fi.module.name.endswith(('trs.trs', 'config.master_config')):
+            continue
+        for a in walk_local(fi.node):
+            if isinstance(a, ast.Assign) and isinstance(a.targets[0], ast.Attribute):
+                tgt = a.targets[0].attr
+                kind = 'UNDEF' if '_UNDEF_' in tgt else 'ERR' if '_ERR_' in tgt else None
+                if kind is None:
+                    continue
+                other = 'ERR' if kind == 'UNDEF' else 'UNDEF'
+                parts = [x.attr for x in ast.walk(a.value) if isinstance(x, ast.Attribute) and (f"_{other}_" in x.attr or f"_{kind}_" in x.attr)]
+                if not parts:
+                    continue
+                n += 1
+                wrong = [p_ for p_ in parts if f"_{other}_" in p_]
+                ctx.check(not wrong, rule, f"{fi.qualname}: {tgt} is built from {kind} parts only",
+                          detail_bad=f"`{norm(a)[:70]}` puts {wrong[0] if wrong else ''} into the {kind} placeholder: after this runs, TRS() / "
+                                     f"Tract('...') / trs_to_dict(None) report {'an error' if kind == 'UNDEF' else 'an undefined'} component "
+                                     f"where they reported {'an undefined' if kind == 'UNDEF' else 'an error'} one before - depending on whether "
+                                     f"_recompile() was ever called in the process", key=f"{rule}|{fi.qualname}|kind-mix|{tgt}",
+                          where=common.loc(fi, a))
+    return n
+
+
 def cache_writer(ctx):
     """The TRS method that fills the class-level cache - found by what it does
     (an item store into `...__CACHE[...]`), so a rename of the private helper
@@ -104,6 +135,7 @@ def check(ctx):
     ctx.attempt(_escape)
     ctx.attempt(_cache_purity)
     ctx.attempt(forward.check_all, module_suffixes=('trs.trs', 'config.master_config'))
+    ctx.attempt(placeholder_kinds)
     from .c14 import settings_are_inputs    # a Config object is shared by every description created with it
     ctx.attempt(settings_are_inputs, rule='GLOBALS')
     from . import memo          # a result cache anywhere in the package is process / object state
@@ -334,6 +366,29 @@ def _mutable_defaults(ctx):
 
 def _escape(ctx):
     ci = ctx.repo.cls('trs.trs:TRS')
+    # what a PUBLIC function returns never comes from the cache (or the function that fills it):
+    # the caller could edit the dict that every TRS with that string shares
+    try:
+        wname = cache_writer(ctx).node.name
+    except AnalysisError:
+        wname = '_cache_trs_to_dict'
+    cachey = {wname} | {m.node.name for m in ci.methods.values() if m.node.name.startswith('_') and any(
+        isinstance(r, ast.Return) and r.value is not None and '__CACHE' in norm(r.value) for r in walk_local(m.node))}
+    for f2 in ctx.repo.funcs.values():
+        if not f2.module.name.endswith('trs.trs') or f2.node.name.startswith('_') or f2.outer is not None:
+            continue
+        if any(isinstance(d_, ast.Name) and d_.id == 'property' for d_ in f2.node.decorator_list):
+            continue
+        for r in walk_local(f2.node):
+            if isinstance(r, ast.Return) and r.value is not None:
+                hit = [c for c in ast.walk(r.value) if (isinstance(c, ast.Call) and (dotted(c.func) or '').split('.')[-1] in cachey)
+                       or (isinstance(c, ast.Attribute) and c.attr.endswith('__CACHE'))]
+                if hit and not any(isinstance(c, ast.Call) and dotted(c.func) in ('dict', 'copy.copy', 'copy.deepcopy') for c in ast.walk(r.value)) \
+                        and not any(isinstance(c, ast.Call) and isinstance(c.func, ast.Attribute) and c.func.attr == 'copy' for c in ast.walk(r.value)):
+                    ctx.violation('ESCAPE', f"{f2.qualname} returns a dict of its own",
+                                  f"`{norm(r)[:80]}` hands the caller the very dict that the TRS cache keeps for that string: editing it "
+                                  f"(sec 14 -> 15) changes every existing and future TRS / Tract with that Twp/Rge/Sec",
+                                  key=f"ESCAPE|{f2.qualname}|returns-cached", where=common.loc(f2, r))
     n_loads = 0
     for st in ast.walk(ci.node):
         if isinstance(st, ast.Attribute) and st.attr == '__trs_dict':
